@@ -38,6 +38,8 @@ def replay_csv(rows, cols, enc, blocked):
         for c, v in t.items():
             if v != '' and g.get(c) != v:
                 return True, 'row %d column %s: %r became %r' % (i + 1, c, v[:30], str(g.get(c))[:30]), 'C20/value'
+            if v == '' and g.get(c) not in ('', None):
+                return True, 'row %d: column %s was left empty but comes back as %r' % (i + 1, c, str(g.get(c))[:30]), 'C20/value-appeared'
     return False, 'ok', None
 
 
